@@ -156,6 +156,15 @@ def run(cx):
         # R2 sqlite: count query and row query get the same filter under the same guard
         f = m.one(r"^<%s as acts::DbCollection>::query$" % re.escape(coll))
         cw = [call for call in f.calls() if call.q.endswith("SelectStatement::cond_where")]
+        if len(cw) == 1:
+            # one statement only is filtered: when that is the row statement and the count statement is a separate one
+            # built from scratch (not a clone of the filtered one), the total counts every row of the table
+            r1 = _chain_root(m, f, cw[0].args[0])
+            rc_ = _count_stmt_root(m, f)
+            if rc_ is not None and rc_ != r1 and not (rc_[0] == "call" and "clone" in rc_[1].lower()):
+                cx.ob("C10.R2", "sqlite:%s:count-vs-page" % c, False,
+                      "SQLite query of `%s`: count statement and row statement receive the same filter under the same guard (only %s is filtered; the count statement %s is not)" % (c, root_str(r1), root_str(rc_)), cw[0].loc)
+                continue
         if len(cw) != 2:
             raise Anchor("query of %s: expected two cond_where calls, found %d" % (c, len(cw)))
         recv = []
@@ -182,6 +191,7 @@ def run(cx):
               "SQLite query of `%s`: limit/offset are applied to the row statement only" % c, f.loc())
 
     r2_sqlite_count_source(cx)
+    r2_page_bookkeeping(cx)
     cx.floor("C10.R1a", 50)
     cx.floor("C10.R1b", 50)
     cx.floor("C10.R1c", 50)
@@ -195,10 +205,12 @@ def run(cx):
     r2_mem(cx)
     r3_sentinel(cx)
     r4_order(cx)
+    r4_sqlite_direction(cx)
     r5_ops(cx)
     r5_top_level(cx)
     cx.floor("C10.R2", 20)
     cx.floor("C10.R3", 2)
+    cx.floor("C10.R4", 11)
     cx.floor("C10.R5", 8)
 
 
@@ -422,6 +434,120 @@ def r4_order(cx):
               "sort keys are combined as `earlier.then(later)`: the first requested key decides, the next ones only break ties (receiver %s, argument %s)" % (root_str(recv), root_str(arg)), c.loc)
     if not thens:
         cx.ob("C10.R4", "mem:order:key-priority", False, "no `Ordering::then` found in the comparator: several sort keys are not combined lexicographically", sort[0].loc)
+
+
+def _shape(f, pv, r, depth=0):
+    """a root without block numbers and module paths, commutative operands sorted: comparable across sibling functions"""
+    if depth > 6 or not isinstance(r, tuple) or not r:
+        return repr(r)
+    if r[0] == "call":
+        name = "::".join(re.sub(r"<.*?>", "", r[1]).split("::")[-2:])
+        path = tuple(r[3]) if len(r) > 3 else ()
+        if name.endswith("div_ceil"):
+            args = Call(f, r[2]).args
+            return ("call", name, _shape(f, pv, pv.root(f, args[1]), depth + 1) if len(args) > 1 else None, path)
+        return ("call", name, path)
+    if r[0] == "bin":
+        ops = [_shape(f, pv, x, depth + 1) for x in r[2:]]
+        if r[1] in ("Add", "Mul", "AddWithOverflow", "MulWithOverflow"):
+            ops = sorted(ops, key=repr)
+        return ("bin", r[1].replace("WithOverflow", "")) + tuple(ops)
+    if r[0] == "field":
+        inner = _shape(f, pv, r[1], depth + 1)
+        # `(a + b).0` is the checked-arithmetic result of `a + b`
+        return inner if isinstance(inner, tuple) and inner[0] == "bin" and tuple(r[2]) == ("0",) else ("field", inner, tuple(r[2]))
+    if r[0] == "const":
+        return ("const", r[1].get("int", r[1].get("str", "?")))
+    return (r[0],)
+
+
+def _page_fields(m, f, pv):
+    for b in f.blocks:
+        for s_ in b["s"]:
+            if s_[0] == "A" and s_[2][0] == "agg" and s_[2][1].endswith("PageData") and s_[2][3]:
+                d = dict(zip(s_[2][3], s_[2][4]))
+                return {k: _shape(f, pv, pv.root(f, d[k])) for k in ("page_num", "page_count", "page_size") if k in d}
+    return None
+
+
+def r2_page_bookkeeping(cx):
+    """both back ends answer one query alike: each SQLite collection computes page_num / page_count / page_size of the
+    page it returns by the same expression over (offset, limit, count) as the memory store (sibling agreement, the
+    memory store being the reference; no expression is frozen here)"""
+    m = cx.m
+    pv = Prov(m, "value")
+    ref = _page_fields(m, m.one(r"^<acts::store::db::mem::collect::Collect<T> as acts::store::DbCollection>::query$"), pv)
+    if not ref:
+        cx.note("C10.R2 page bookkeeping: the memory store does not build PageData as a literal; siblings not compared")
+        return
+    for c in COLLECTIONS:
+        coll = "acts_store_sqlite::collection::%s::%sCollection" % (c, c.capitalize())
+        f = m.one(r"^<%s as acts::DbCollection>::query$" % re.escape(coll))
+        got = _page_fields(m, f, pv)
+        if not got:
+            cx.note("C10.R2 sqlite:%s: PageData is not built as a literal; page bookkeeping not compared" % c)
+            continue
+        diff = sorted(k for k in ref if k in got and got[k] != ref[k])
+        cx.ob("C10.R2", "sqlite:%s:page-bookkeeping" % c, not diff,
+              "SQLite query of `%s` computes page_num / page_count / page_size as the memory store does (differs: %s)" % (c, ", ".join("%s = %s, memory store %s" % (k, got[k], ref[k]) for k in diff) or "nothing"), f.loc())
+
+
+def r4_sqlite_direction(cx):
+    """SQLite: the direction handed to `SelectStatement::order_by` is `Desc` exactly under the key's `rev` flag (the bool of
+    the `(name, rev)` pair taken from `Query::order_by()`): every `Order::Desc` that reaches the call is built where the flag
+    is known true, every `Order::Asc` where it is known false. A direction operand of another shape is recorded, not judged."""
+    m = cx.m
+    pa = Prov(m, "alias")
+    for c in COLLECTIONS:
+        coll = "acts_store_sqlite::collection::%s::%sCollection" % (c, c.capitalize())
+        f = m.one(r"^<%s as acts::DbCollection>::query$" % re.escape(coll))
+        calls = [call for call in f.calls() if re.search(r"sea_query::SelectStatement::order_by(::<.*>)?$", call.q)]
+        inner = [g for g in m.fns.values() if g.q.startswith(f.q + "::{closure") and any(re.search(r"sea_query::SelectStatement::order_by", x.q) for x in g.calls())]
+        if not calls and inner:
+            cx.note("C10.R4 sqlite:%s: order_by is called from a closure; direction not judged" % c)
+            cx.ob("C10.R4", "sqlite:%s:order-applied" % c, True, "SQLite query of `%s` hands the requested sort keys to `order_by`" % c, f.loc())
+            continue
+        if not calls:
+            cx.ob("C10.R4", "sqlite:%s:order-applied" % c, False, "SQLite query of `%s` hands the requested sort keys to `order_by`" % c, f.loc())
+            continue
+        cx.ob("C10.R4", "sqlite:%s:order-applied" % c, True, "SQLite query of `%s` hands the requested sort keys to `order_by`" % c, calls[0].loc)
+        for call in calls:
+            op = call.args[2]
+            if op[0] == "k" or not isinstance(op[1], (list, tuple)) or op[1][1]:
+                cx.note("C10.R4 sqlite:%s: direction operand of order_by is not a plain local; not judged" % c)
+                continue
+            loc = op[1][0]
+            defs = []
+            for bi, b in enumerate(f.blocks):
+                for s_ in b["s"]:
+                    if s_[0] == "A" and s_[1][0] == loc and not s_[1][1] and s_[2][0] == "agg" and s_[2][1].endswith("Order") and s_[2][2] in ("Asc", "Desc"):
+                        defs.append((bi, s_[2][2]))
+            if not defs:
+                cx.note("C10.R4 sqlite:%s: direction of order_by is not built from Order::Asc / Order::Desc literals; not judged" % c)
+                continue
+            bad = []
+            judged = 0
+            for bi, variant in defs:
+                flags = [g for g in guards_of(m, f, bi, mode="alias") if g.truth is not None and _is_rev_flag(m, f, pa, g.root)]
+                if not flags:
+                    continue
+                judged += 1
+                want = variant == "Desc"
+                if any(g.truth is not want for g in flags):
+                    bad.append("Order::%s built where the key's rev flag is %s" % (variant, str(not want).lower()))
+            if not judged:
+                cx.note("C10.R4 sqlite:%s: no Order literal is built under a test of the key's rev flag; not judged" % c)
+                continue
+            cx.ob("C10.R4", "sqlite:%s:direction" % c, not bad,
+                  "SQLite query of `%s`: a key is ordered descending exactly when its `rev` flag is set (%s)" % (c, "; ".join(bad) or "Desc under rev, Asc under !rev"), call.loc)
+
+
+def _is_rev_flag(m, f, pa, root, depth=0):
+    """the condition root is the bool of a `(String, bool)` item that an iterator handed out (the `(name, rev)` pairs of
+    `Query::order_by()`)"""
+    if root[0] != "call" or not root[1].endswith("Iterator>::next") or len(root) < 4 or not root[3] or root[3][-1] != "1":
+        return False
+    return "(std::string::String, bool)" in Call(f, root[2]).full
 
 
 def _is_accumulated(m, g, pa, r):
